@@ -42,6 +42,8 @@ pub struct Stats {
     pub exhaustive_tasks: u64,
     pub random_tasks: u64,
     pub shape_drift: u64,
+    /// order-independent digest of (picks, trace) per configuration (feature-set differential)
+    pub digests: BTreeMap<String, u64>,
 }
 
 impl Stats {
@@ -68,6 +70,10 @@ impl Stats {
         self.exhaustive_tasks += o.exhaustive_tasks;
         self.random_tasks += o.random_tasks;
         self.shape_drift += o.shape_drift;
+        for (k, v) in o.digests {
+            let e = self.digests.entry(k).or_default();
+            *e = e.wrapping_add(v);
+        }
     }
 }
 
@@ -151,6 +157,14 @@ fn hash_case(cfg: &str, shape: Shape, picks: &[u32]) -> u64 {
 
 fn account(stats: &mut Stats, task: &Task, out: &CaseOut, picks: &[u32], trace: &str) {
     stats.evaluations += 1 + out.extra_evals as u64;
+    {
+        let mut h = std::collections::hash_map::DefaultHasher::new();
+        picks.hash(&mut h);
+        trace.hash(&mut h);
+        out.violation.is_some().hash(&mut h);
+        let e = stats.digests.entry(task.entry.name.to_string()).or_default();
+        *e = e.wrapping_add(h.finish());
+    }
     *stats.per_config.entry(task.entry.name.to_string()).or_default() += 1;
     stats.avoided += out.avoided as u64;
     if out.nontrivial {
@@ -327,6 +341,12 @@ pub fn stats_json(prop: &str, tier: &str, seed: u64, profile: &str, rule: &str, 
     first = true;
     for (k, v) in &stats.per_config {
         let _ = write!(o, "{}{}: {}", if first { "" } else { ", " }, jstr(k), v);
+        first = false;
+    }
+    let _ = write!(o, "}},\n \"digests\": {{");
+    first = true;
+    for (k, v) in &stats.digests {
+        let _ = write!(o, "{}{}: \"{:016x}\"", if first { "" } else { ", " }, jstr(k), v);
         first = false;
     }
     let _ = write!(o, "}},\n \"samples\": [");
